@@ -345,6 +345,50 @@ async function check (leaf, resps, ctx) {
     let ex
     try { ex = load(f.file, out.content) } catch (e) { v('content-does-not-load', 'load', String(e).slice(0, 160)); return res }
     judge(main, ex, f, { path: f.orig.path, path2: f.orig.path2, split: f.orig.split, shift: f.orig.shift, sites: f.sites, translate: true }, v, `file ${path.basename(f.file)} (${p.layout}${p.chained ? ', chained' : ''})`, res.notes)
+    // (chained files) the same file again with an original map under which every in-file frame keeps its very
+    // content line:column and only the FILE changes: a translation that looks at positions alone would skip it
+    if (p.chained && p.src === 'relative' && !p.fname) {
+      const frames = new Map() // content line -> column of the first frame seen on it
+      for (const name of Object.keys(CALLS)) {
+        if (!(name in ex)) continue
+        const cap = capture(() => CALLS[name](ex), 'raw', main)
+        if (Array.isArray(cap.stack)) for (const fr of cap.stack) if (fr.file === f.file && !fr.eval && !frames.has(fr.line)) frames.set(fr.line, fr.col)
+      }
+      // content line L holds intermediate line i(L) (through the plain rewrite map): read it from the decoded trailer
+      const t = require('../oracles/v8parse').trailerInfo(out.content)
+      const plain = await ctx.service.send({ config: Object.assign({}, config, { chainSourceMap: false }), file: f.file, code: f.code })
+      const R = SM.decodeMap(require('../oracles/v8parse').trailerInfo(plain.content).map)
+      const lines = f.code.split('\n')
+      const segs = []
+      const wanted = new Map() // intermediate line -> [content line, content col]
+      for (const [cl, cc] of frames) { const m = SM.lookup(R, cl - 1, cc - 1); if (m && !wanted.has(m.ol)) wanted.set(m.ol, [cl, cc]) }
+      for (let i = 0; i < f.lineCount; i++) { const w = wanted.get(i); segs.push(w ? { gl: i, gc: 0, src: 0, ol: w[0] - 1, oc: w[1] - 1 } : { gl: i, gc: 0, src: 0, ol: i + 500, oc: 0 }) }
+      const M2 = SM.encodeMap({ sources: ['same.ts'], names: [], segments: segs, file: 'a.js' })
+      const body = lines.slice(0, f.lineCount).join('\n') + '\n'
+      const code2 = body + '//# sourceMappingURL=data:application/json;base64,' + b64(JSON.stringify(M2)) + '\n'
+      const r2 = await ctx.service.send({ config, file: f.file, code: code2 })
+      if (r2.status === 'ok' && r2.content) {
+        bridge.provide(config, code2, f.file, r2)
+        const out2 = new main.Rewriter(config).rewrite(code2, f.file)
+        const ex2 = load(f.file, out2.content)
+        const ts = path.join(DIR, 'same.ts')
+        let judged = 0
+        for (const name of Object.keys(CALLS)) {
+          if (!(name in ex2)) continue
+          const raw = capture(() => CALLS[name](ex2), 'raw', main); const str = capture(() => CALLS[name](ex2), 'string', main); const han = capture(() => CALLS[name](ex2), 'handler', main)
+          if (!Array.isArray(raw.stack) || typeof str.stack !== 'string' || !Array.isArray(han.stack)) continue
+          raw.stack.forEach((fr, i) => {
+            if (fr.file !== f.file || fr.eval || frames.get(fr.line) !== fr.col) return
+            judged++
+            const want = `${ts}:${fr.line}:${fr.col}`
+            if (han.stack[i] && han.stack[i].file !== ts) v('frame-wrong-path', 'handler:same-position', `site ${name}: frame at content ${fr.line}:${fr.col} maps to the same line:column of ${ts}, handler saw ${han.stack[i].file}:${han.stack[i].line}`)
+            if (!str.stack.includes(want)) v('frame-wrong-path', 'string:same-position', `site ${name}: frame at content ${fr.line}:${fr.col} maps to the same line:column of another file; the formatted stack does not contain ${want}`)
+          })
+        }
+        res.notes.same_position_frames = judged
+        if (!judged) v('setup', 'same-position', 'no frame kept its position under the identity-position map')
+      } else v('setup', 'same-position', 'second rewrite failed: ' + r2.status)
+    }
     // wrapping is idempotent and marks the handler
     const handler = () => 'x'
     const w1 = main.getPrepareStackTrace(handler)
